@@ -374,6 +374,10 @@ def lib_serialize(regs, opts, tmpdir=None):
         return regs[0].serialize(format='crtf', **kw)
     if api == 'file':
         path = os.path.join(tmpdir, 'c11.crtf')
+        if not os.path.exists(path):
+            # the destination already holds an older, much longer region file: overwriting replaces it completely
+            with open(path, 'w') as fh:
+                fh.write('#CRTFv0\n' + ''.join(f'circle[[{k}.5deg, -{k}.25deg], 0.{k}5deg], label=\'old {k}\', color=red\n' for k in range(1, 90)))
         Regions(regs).write(path, format='crtf', overwrite=True, **kw)
         with open(path) as fh:
             return fh.read()
